@@ -11,6 +11,11 @@ CHECKS = {
    note="Trusted: types.Identical as the identity relation, TLC, the Go toolchain. Bounded to 5 keys / 3-5 classes / 2 values per shape (thorough: more traces); key pool is a fixed set of ~880 real types incl. aliases, generic signatures, permuted interfaces/unions, instantiations.",
    technique="TLA+ spec + TLC exhaustive (VIEW-reduced) + transition-tour replay + TLC trace validation",
    design_ref="DESIGN.md section 5 C19"),
+ "C20": dict(level="model_checking",
+   text="Cache.tla models Impl.Find/Prepare/Save/Load step by step (one action per observable step: cache load, each fingerprint call, the open, nlist++, go list, store, reload) with the environment (fingerprints, export files, go-list outcome, the saved file and its damage). TLC checks FreshServe, NoNeedlessList, ListFailureIsError, EntryConsistent, GarbageNeverServed on all interleavings of two callers with environment steps, and generates gated behaviours (transition tours of several configurations + simulation) that the harness forces on the real cache.Impl: the fingerprint function and a stub `go` executable are gates at which every observation of the implementation blocks until the behaviour schedules it; served content, error, ListTimes, saved file and Load result are compared after every step.",
+   note="Assumes fingerprints do not change between a `go list` and the hash calls labelling its result (AtomicPrepareEnv). Bounded: 2-3 packages, 2 fingerprint versions, <= 2 callers, <= 4 calls in quick. Trusted: TLC, the stub go (honours the -f template), Go race-free harness gates. Concurrent free-running traces under -race are thorough-tier only.",
+   technique="TLA+ spec + TLC exhaustive (design, 2 callers) + gated transition-tour/simulation replay on the real cache",
+   design_ref="DESIGN.md section 5 C20"),
 }
 
 def sh(cmd):
